@@ -381,8 +381,8 @@ func rfcAllowed(state, kind int64, hf, es, eh bool) (allowed func(stOutcome) boo
 			return conn(errProtocol), false, "DATA while the header block is still open (s6.2/s6.10)"
 		case 1:
 			if hf {
-				if es && eh {
-					return or(accept, decoder, conn(errProtocol)), true, "trailers: HEADERS with END_STREAM (s8.1)"
+				if es {
+					return or(accept, decoder, conn(errProtocol)), true, "trailers: a HEADERS frame with END_STREAM, whose block may go on in CONTINUATION frames like any other (s8.1, s6.2)"
 				}
 				return conn(errProtocol), false, "a second HEADERS that does not end the stream is malformed (s8.1)"
 			}
